@@ -75,6 +75,8 @@ long xv_ssl_set_mode_calls; long xv_ssl_mode;
 long xv_hs_calls; const SSL *xv_hs_ssl; _Bool xv_hs_connect; int xv_hs_ret;
 _Bool xv_ssl_hs_done;
 _Bool xv_ssl_peer_cert; long xv_ssl_verify_result;
+/* xv_err_drained: OpenSSL's per-THREAD error queue was drained (ERR_get_error loop in log_tls_get_error_stack) */
+_Bool xv_err_drained;
 int xv_ssl_err; unsigned long xv_err_queue; int xv_ssl_last_ret; _Bool xv_ssl_close_seen;
 int xv_ssl_errno;                            /* errno as the last handshake/read/write call left it */
 long xv_sw_calls; const SSL *xv_sw_ssl; const void *xv_sw_buf; int xv_sw_num; int xv_sw_ret;
@@ -101,7 +103,7 @@ long xv_pending_calls; long xv_shutdown_calls; long xv_ssl_free_calls; const SSL
                             xv_get0_param_calls, xv_get0_param_ssl, xv_x509_flags, xv_x509_set_flags_calls
 #define XV_SSL_HOST_ASSIGNS xv_get0_param_calls, xv_get0_param_ssl, xv_x509_hostflags, xv_x509_set_hostflags_calls, \
                             xv_x509_nhosts, xv_x509_host_resets, xv_x509_add_calls, xv_x509_host_k
-#define XV_SSL_ERR_ASSIGNS xv_ssl_err, xv_err_queue, xv_ssl_last_ret, xv_ssl_close_seen, xv_ssl_errno
+#define XV_SSL_ERR_ASSIGNS xv_ssl_err, xv_err_queue, xv_ssl_last_ret, xv_ssl_close_seen, xv_ssl_errno, xv_err_drained
 #define XV_SSL_VERDICT_ASSIGNS xv_x509_refs, xv_peer_cert_calls, xv_verify_result_calls, xv_errstr_calls
 #define XV_SSL_HS_ASSIGNS xv_hs_calls, xv_hs_ssl, xv_hs_connect, xv_hs_ret, xv_ssl_hs_done, xv_ssl_peer_cert, xv_ssl_verify_result, XV_SSL_ERR_ASSIGNS
 #define XV_SSL_WRITE_ASSIGNS xv_sw_calls, xv_sw_ssl, xv_sw_buf, xv_sw_num, xv_sw_ret, XV_SSL_ERR_ASSIGNS
@@ -120,6 +122,7 @@ static inline void xv_ssl_havoc(void)
     xv_ssl_set_mode_calls = nondet_long(); xv_ssl_mode = nondet_long();
     xv_hs_calls = nondet_long(); xv_hs_ssl = (const SSL *)nondet_size_t(); xv_hs_connect = nondet_bool(); xv_hs_ret = nondet_int();
     xv_ssl_hs_done = nondet_bool(); xv_ssl_peer_cert = nondet_bool(); xv_ssl_verify_result = nondet_int();
+    xv_err_drained = 0;
     xv_ssl_err = nondet_int(); xv_err_queue = (unsigned long)nondet_size_t(); xv_ssl_last_ret = nondet_int(); xv_ssl_close_seen = nondet_bool(); xv_ssl_errno = nondet_int();
     xv_sw_calls = nondet_long(); xv_sw_ssl = (const SSL *)nondet_size_t(); xv_sw_buf = (const void *)nondet_size_t(); xv_sw_num = nondet_int(); xv_sw_ret = nondet_int();
     xv_sr_calls = nondet_long(); xv_sr_ssl = (const SSL *)nondet_size_t(); xv_sr_buf = (const void *)nondet_size_t(); xv_sr_num = nondet_int(); xv_sr_ret = nondet_int();
